@@ -221,7 +221,24 @@ fn decode_value<R: ciborium_io::Read>(decoder: &mut Decoder<R>) -> Result<Value,
 where
   ciborium_ll::Error<R::Error>: Into<DecodeError>,
 {
+  let start = decoder.offset();
   let header = decoder.pull().map_err(Into::into)?;
+  let head_len = decoder.offset() - start;
+  decode_item(decoder, header, start, head_len)
+}
+
+/// Decode the data item whose head `header` has just been pulled from the
+/// wire. `start` is the offset of the head and `head_len` the number of bytes
+/// it occupied there.
+fn decode_item<R: ciborium_io::Read>(
+  decoder: &mut Decoder<R>,
+  header: Header,
+  start: usize,
+  head_len: usize,
+) -> Result<Value, DecodeError>
+where
+  ciborium_ll::Error<R::Error>: Into<DecodeError>,
+{
   match header {
     Header::Positive(v) => Ok(Value::Integer(Integer::from(v))),
     Header::Negative(v) => {
@@ -241,6 +258,9 @@ where
       }
     }
     Header::Float(f) => Ok(Value::Float(f)),
+    // RFC 8949 §3.3: the two-byte form (0xf8 xx) is only well-formed for
+    // simple values 32..=255
+    Header::Simple(s) if head_len == 2 && s < 32 => Err(DecodeError::Syntax(start)),
     Header::Simple(s) => match s {
       simple::FALSE => Ok(Value::Bool(false)),
       simple::TRUE => Ok(Value::Bool(true)),
@@ -391,13 +411,15 @@ where
       // Indefinite-length array
       let mut items = Vec::new();
       loop {
-        // Peek at the next header to check for break
+        // Pull the next header to check for break; the element is decoded from
+        // the header as read (pushing it back would re-encode it)
+        let start = decoder.offset();
         let h = decoder.pull().map_err(Into::into)?;
         if h == Header::Break {
           break;
         }
-        decoder.push(h);
-        items.push(decode_value(decoder)?);
+        let head_len = decoder.offset() - start;
+        items.push(decode_item(decoder, h, start, head_len)?);
       }
       Ok(items)
     }
@@ -425,12 +447,13 @@ where
       // Indefinite-length map
       let mut entries = Vec::new();
       loop {
+        let start = decoder.offset();
         let h = decoder.pull().map_err(Into::into)?;
         if h == Header::Break {
           break;
         }
-        decoder.push(h);
-        let key = decode_value(decoder)?;
+        let head_len = decoder.offset() - start;
+        let key = decode_item(decoder, h, start, head_len)?;
         let val = decode_value(decoder)?;
         entries.push((key, val));
       }
